@@ -97,11 +97,12 @@ type timeoutCfg struct {
 }
 
 type client struct {
-	nc   net.Conn
-	c    *conn.Conn
-	port int
-	rec  *connRec // the server side of this connection (ports are reused: never look it up again)
-	dead bool     // the client saw EOF / closed it
+	nc        net.Conn
+	c         *conn.Conn
+	port      int
+	rec       *connRec // the server side of this connection (ports are reused: never look it up again)
+	dialledAt time.Time
+	dead      bool // the client saw EOF / closed it
 }
 
 var instCounter atomic.Int32
@@ -415,7 +416,7 @@ func (in *instance) doOpen(idx, ip int) string {
 		return "ok"
 	}
 	port := nc.LocalAddr().(*net.TCPAddr).Port
-	cl := &client{nc: nc, c: conn.NewConn(bufio.NewReader(nc), nc), port: port}
+	cl := &client{nc: nc, c: conn.NewConn(bufio.NewReader(nc), nc), port: port, dialledAt: time.Now()}
 	in.clients[idx] = cl
 	if !in.core.waitFor(watchdog, func() bool {
 		r, ok := in.core.conns[nc.LocalAddr().String()]
@@ -678,14 +679,7 @@ func (in *instance) doReq(r Req) (ReqResult, error) {
 	if !ok || cl.dead || !in.serverOpen(r.Conn) {
 		out.NoConn = true
 		if ok {
-			in.core.mu.Lock()
-			out.CloseErr = fmt.Sprintf("noconn: client side dead=%v", cl.dead)
-			if cl.rec != nil {
-				out.CloseErr += fmt.Sprintf(", server side closed=%v (%s)", cl.rec.closed, cl.rec.closeErr)
-			} else {
-				out.CloseErr += ", OnConnOpen never seen"
-			}
-			in.core.mu.Unlock()
+			out.CloseErr = in.noConnDiag(cl)
 		}
 		return out, nil
 	}
@@ -806,6 +800,18 @@ func (in *instance) doNonRequest(idx int, frame bool) (closed bool, delivered bo
 	return closed, true
 }
 
+func (in *instance) noConnDiag(cl *client) string {
+	in.core.mu.Lock()
+	defer in.core.mu.Unlock()
+	d := fmt.Sprintf("noconn: client side dead=%v", cl.dead)
+	if cl.rec == nil {
+		return d + ", OnConnOpen never seen"
+	}
+	return d + fmt.Sprintf(", server side closed=%v (%s); dialled %v ago, OnConnOpen %v ago, OnConnClose %v ago, ports %d/%d, idle %v",
+		cl.rec.closed, cl.rec.closeErr, time.Since(cl.dialledAt).Round(time.Millisecond), time.Since(cl.rec.openedAt).Round(time.Millisecond),
+		time.Since(cl.rec.closedAt).Round(time.Millisecond), cl.port, cl.rec.port, in.srv.IdleTimeout)
+}
+
 // BatchResult is what the client saw for a pipelined batch.
 type BatchResult struct {
 	Lines    []string // per request: "st <status> cs <cseq>" or "noconn"
@@ -813,6 +819,7 @@ type BatchResult struct {
 	Answered int
 	Closed   bool
 	Detail   string // non-empty: something is wrong with the answers
+	Diag     string // why the connection was not usable (diagnostics only)
 }
 
 // doBatch writes the requests back to back in one segment (pipelining) and then reads the responses.
@@ -822,6 +829,9 @@ func (in *instance) doBatch(reqs []Req) (BatchResult, error) {
 	if !ok || cl.dead || !in.serverOpen(reqs[0].Conn) {
 		for range reqs {
 			res.Lines = append(res.Lines, "noconn")
+		}
+		if ok {
+			res.Diag = in.noConnDiag(cl)
 		}
 		return res, nil
 	}
